@@ -35,6 +35,7 @@ def run(ctx):
     C19.err_adapters(ctx, facts)
     align(ctx, facts)
     rendezvous_waker(ctx, facts)
+    spare(ctx, facts)
     # the "cannot deadlock while the window has room" clause rests on the buffers' waker discipline (shared with C14)
     from rules import C14
     C14.wake1(ctx, facts)
@@ -399,3 +400,104 @@ def rendezvous_waker(ctx, facts):
     stale = [n for n in nones if n in reach]
     ok = len(writes) >= 2 and bool(nones) and not stale
     ctx.ob("WAKE-latest", "add_waker:none-only-after-storing-the-waker", ok, "a receiver told to wait has its current waker registered" if ok else "StreamCollection::add_waker can answer `None` (wait) without having stored the caller's current waker: when the stream arrives the stale / missing waker is woken and the receive stalls", site_of(b, stale[0]) if stale else site_of(b))
+
+
+# ---------------------------------------------------------------------------------------------
+def spare(ctx, facts):
+    """UnorderedReceiver reassembles fixed-size messages from arbitrarily cut chunks through `Spare`: the index
+    arithmetic must hand out every byte exactly once, in order."""
+    ctx.rule("SPARE: evaluated from the extracted slice ranges and guards for stored length 0..6, offset <= length, chunk length 0..8 and message size 1..5: extend() with too little data keeps exactly the unread tail followed by the chunk (offset 0); otherwise the message is (unread tail ++ first `needed` bytes of the chunk) with needed = size - tail, the copy ranges have equal lengths, and the rest of the chunk from `needed` on is kept; with no tail the message is the chunk's first `size` bytes and the rest is kept; read() hands out [offset, offset + size) only if it fits and advances offset by size")
+    P = "helpers::buffers::unordered_receiver::Spare::"
+    ex, rd, rp = (facts.bodies.get(P + n) for n in ("extend", "read", "replace"))
+    if None in (ex, rd, rp):
+        return ctx.missing("SPARE", "Spare::extend / read / replace")
+    ctx.count(bodies=3)
+    LEN, OFF, N = ("call", "std::vec::Vec::<T, A>::len", (("arg", 1, "buf"),)), ("arg", 1, "offset"), ("call", "core::slice::<impl [T]>::len", (("arg", 2),))
+    SZ = ("const", "typenum::Unsigned::USIZE")
+    OPS = {"Ge": lambda a, c: a >= c, "Gt": lambda a, c: a > c, "Le": lambda a, c: a <= c, "Lt": lambda a, c: a < c, "Eq": lambda a, c: a == c, "Ne": lambda a, c: a != c}
+    dom = ex.dominators()
+    eg = flow.edge_guards(ex)
+    def guards_of(bb):
+        return [f for tgt, f in eg if flow.dominates(dom, tgt, bb) and f[0] in OPS]
+    def base(e):
+        s_ = str(e)
+        if e == ("arg", 2):
+            return "v"
+        if e == ("arg", 1, "buf"):
+            return "buf"
+        if "Default::default" in s_:
+            return "tmp"
+        return "?"
+    sites = []
+    for bb, t in ex.calls():
+        fn = F.callee(t)[0] or ""
+        if fn.endswith("ops::Index::index") or fn.endswith("ops::IndexMut::index_mut"):
+            r = flow.expr_of(ex, t["args"][1], max_depth=12)
+            if r[0] == "agg" and isinstance(r[1], tuple) and r[1][1] in ("RangeTo", "RangeFrom", "Range"):
+                sites.append((bb, base(flow.expr_of(ex, t["args"][0], max_depth=6)), r[1][1], r[2]))
+    bad = None
+    n = 0
+    try:
+        def ev(e, env):
+            return ieval(e, env)
+        for L in range(0, 7):
+            for off in range(0, L + 1):
+                for nn in range(0, 9):
+                    for sz in range(1, 6):
+                        env = {LEN: L, OFF: off, N: nn, SZ: sz}
+                        rem = L - off
+                        n += 1
+                        live = [(bb, b_, k, [ev(x, env) for x in ops]) for bb, b_, k, ops in sites if all(OPS[op](ev(l, env), ev(r, env)) for op, l, r in guards_of(bb))]
+                        if rem + nn < sz:
+                            if live and bad is None:
+                                bad = f"stored tail {rem}, chunk {nn}, size {sz}: not enough data, yet bytes are sliced out ({[(x[1], x[2], x[3]) for x in live]})"
+                            continue
+                        if rem > 0:
+                            want = {("tmp", "RangeTo"): [rem], ("buf", "RangeFrom"): [off], ("tmp", "RangeFrom"): [rem], ("v", "RangeTo"): [sz - rem], ("v", "RangeFrom"): [sz - rem]}
+                        else:
+                            want = {("v", "RangeFrom"): [sz], ("v", "RangeTo"): [sz]}
+                        got = {(b_, k): v for bb, b_, k, v in live}
+                        if got != want and bad is None:
+                            bad = f"stored tail {rem} (offset {off} of {L}), chunk {nn}, size {sz}: slices {got}, expected {want} (message = tail ++ chunk[..needed], rest = chunk[needed..])"
+    except NoEval as exn:
+        bad = f"cannot evaluate ({exn})"
+    ctx.ob("SPARE", "extend:slices", bad is None, f"message and leftover slices are exact on all {n} grid points" if bad is None else bad, site_of(ex))
+    # not-enough-data arm: buf := buf.split_off(offset); buf.extend_from_slice(v); offset := 0
+    so = flow.find_calls(ex, re.compile(r"Vec::<T, A>::split_off$"))
+    okk = False
+    if len(so) == 1:
+        a = [flow.expr_of(ex, x) for x in so[0][1]["args"]]
+        wr = [(bb, s) for bb, idx, s in ex.iter_assigns() if any(isinstance(e, list) and e[0] == "f" and e[2] == "buf" for e in s["p"][1:]) and "o" in s["r"]]
+        kept = any(flow.expr_of(ex, s["r"]["o"], max_depth=6) == ("call", "std::vec::Vec::<T, A>::split_off", (("arg", 1, "buf"), ("arg", 1, "offset"))) for bb, s in wr)
+        extd = [bb for bb, t in flow.find_calls(ex, re.compile(r"Vec::<T, A>::extend_from_slice$")) if flow.dominates(dom, so[0][0], bb) and flow.expr_of(ex, t["args"][1]) == ("arg", 2)]
+        zero = [bb for bb, idx, s in ex.iter_assigns() if any(isinstance(e, list) and e[0] == "f" and e[2] == "offset" for e in s["p"][1:]) and "o" in s["r"] and flow.expr_of(ex, s["r"]["o"]) == ("const", 0) and flow.dominates(dom, so[0][0], bb)]
+        lt = [f for f in guards_of(so[0][0]) if f[0] == "Lt"]
+        okk = a == [("arg", 1, "buf"), ("arg", 1, "offset")] and kept and bool(extd) and bool(zero) and bool(lt)
+    ctx.ob("SPARE", "extend:keeps-tail-then-chunk", okk, "buf = buf.split_off(offset); buf.extend_from_slice(v); offset = 0" if okk else "with too little data the unread tail is not kept in front of the new chunk (bytes lost or reordered across chunk boundaries)", site_of(ex, so[0][0]) if so else site_of(ex))
+    # read
+    bad = None
+    try:
+        rdom = rd.dominators()
+        reg = flow.edge_guards(rd)
+        ix = [(bb, flow.expr_of(rd, t["args"][1], max_depth=8)) for bb, t in rd.calls() if (F.callee(t)[0] or "").endswith("ops::Index::index")]
+        adv = [(bb, flow.expr_of(rd, s["r"]["o"], max_depth=8)) for bb, idx, s in rd.iter_assigns() if any(isinstance(e, list) and e[0] == "f" and e[2] == "offset" for e in s["p"][1:]) and "o" in s["r"]]
+        if len(ix) != 1 or len(adv) != 1:
+            raise NoEval("one slice and one offset update in read()")
+        for L in range(0, 7):
+            for off in range(0, L + 1):
+                for sz in range(1, 6):
+                    env = {LEN: L, OFF: off, SZ: sz}
+                    on = all(OPS[op](ieval(l, env), ieval(r, env)) for tgt, (op, l, r) in reg if flow.dominates(rdom, tgt, ix[0][0]) and op in OPS)
+                    if on != (off + sz <= L) and bad is None:
+                        bad = f"length {L}, offset {off}, size {sz}: read() {'reads' if on else 'refuses'} although the message {'does not fit' if on else 'fits'}"
+                    if on:
+                        lo, hi = (ieval(x, env) for x in ix[0][1][2])
+                        if (lo, hi, ieval(adv[0][1], env)) != (off, off + sz, off + sz) and bad is None:
+                            bad = f"length {L}, offset {off}, size {sz}: read() takes [{lo}, {hi}) and moves the offset to {ieval(adv[0][1], env)}"
+    except NoEval as exn:
+        bad = f"cannot evaluate read() ({exn})"
+    ctx.ob("SPARE", "read:slice-and-advance", bad is None, "read() = buf[offset..offset+size] iff it fits; offset += size" if bad is None else bad, site_of(rd))
+    rt = [(F.callee(t)[0] or "").split("::")[-1] for bb, t in rp.calls()]
+    zr = [1 for bb, idx, s in rp.iter_assigns() if any(isinstance(e, list) and e[0] == "f" and e[2] == "offset" for e in s["p"][1:]) and "o" in s["r"] and flow.expr_of(rp, s["r"]["o"]) == ("const", 0)]
+    okr = rt == ["truncate", "extend_from_slice"] and bool(zr)
+    ctx.ob("SPARE", "replace:resets", okr, "replace(v): offset = 0, buf = v" if okr else "replace() does not reset the buffer to exactly the given bytes at offset 0", site_of(rp))
